@@ -72,6 +72,20 @@ EXC_OF = {"EOFError": "eof", "UnpicklingError": "unpickling", "AttributeError": 
           "IndexError": "index", "KeyError": "key"}
 
 
+TYPED_LAYOUTS = {
+    # same column names and primary key, other declared types / flags / order: only a comparison of the *full*
+    # PRAGMA table_info rows rejects them
+    "lasthit_text": "txt_hash TEXT, pymoca_version TEXT, data BLOB, last_hit TEXT, PRIMARY KEY (txt_hash, pymoca_version)",
+    "lasthit_varchar": "txt_hash TEXT, pymoca_version TEXT, data BLOB, last_hit VARCHAR(20), PRIMARY KEY (txt_hash, pymoca_version)",
+    "data_text": "txt_hash TEXT, pymoca_version TEXT, data TEXT, last_hit TIMESTAMP INTEGER, PRIMARY KEY (txt_hash, pymoca_version)",
+    "hash_blob": "txt_hash BLOB, pymoca_version TEXT, data BLOB, last_hit TIMESTAMP INTEGER, PRIMARY KEY (txt_hash, pymoca_version)",
+    "notnull_default": "txt_hash TEXT, pymoca_version TEXT, data BLOB NOT NULL DEFAULT x'00', last_hit TIMESTAMP INTEGER DEFAULT 0, "
+                       "PRIMARY KEY (txt_hash, pymoca_version)",
+    "reordered": "pymoca_version TEXT, txt_hash TEXT, last_hit TIMESTAMP INTEGER, data BLOB, PRIMARY KEY (txt_hash, pymoca_version)",
+    "meta_value_int": None,     # metadata(key TEXT, value INTEGER, PRIMARY KEY (key))
+}
+
+
 def ver_str(v, dirty=False):
     s = REAL_VERSIONS[v] if v < 100 else FOREIGN_VERSIONS[v]
     return s + ".dirty" if dirty else s
@@ -252,7 +266,8 @@ class Real:
                     lay = "ok"
                 elif [c[:5] for c in cols] == [c[:5] for c in MODELS_COLS]:
                     lay = "nopk"
-                elif cols[:4] == MODELS_COLS and len(cols) == 5 and cols[4][1:4] == ("extra", "TEXT", 1) and cols[4][4] is None:
+                elif len(cols) == 5 and [c[:5] for c in cols[:4]] == [c[:5] for c in MODELS_COLS] \
+                        and cols[4][1:4] == ("extra", "TEXT", 1) and cols[4][4] is None:
                     lay = "extracol"     # lookup / update / delete work, the INSERT of parse() does not
                 else:
                     lay = "alien"
@@ -349,6 +364,8 @@ class Real:
                 elif how == "alien":
                     self.sql(["DROP TABLE IF EXISTS models",
                               "CREATE TABLE models (wrong_key TEXT, wrong_value TEXT, PRIMARY KEY (wrong_key))"])
+                elif how.startswith("typed:"):
+                    self.sql(["DROP TABLE IF EXISTS models", "CREATE TABLE models (%s)" % TYPED_LAYOUTS[how[6:]]])
                 elif how == "nopk":
                     keep = snap["models"] and snap["models"]["layout"] != "alien"
                     st = ["CREATE TABLE models_new (txt_hash TEXT, pymoca_version TEXT, data BLOB, last_hit TIMESTAMP INTEGER)"]
@@ -358,8 +375,9 @@ class Real:
                     self.sql(st)
                 elif how == "extracol":
                     keep = snap["models"] and snap["models"]["layout"] != "alien"
+                    # (no primary key: a noPk source table may hold duplicates; the insert of parse() fails regardless)
                     st = ["CREATE TABLE models_new (txt_hash TEXT, pymoca_version TEXT, data BLOB, last_hit TIMESTAMP INTEGER, "
-                          "extra TEXT NOT NULL, PRIMARY KEY (txt_hash, pymoca_version))"]
+                          "extra TEXT NOT NULL)"]
                     if keep:
                         st.append("INSERT INTO models_new SELECT txt_hash, pymoca_version, data, last_hit, 'x' FROM models ORDER BY rowid")
                     st += ["DROP TABLE IF EXISTS models", "ALTER TABLE models_new RENAME TO models"]
@@ -370,6 +388,8 @@ class Real:
                 elif how == "alien":
                     self.sql(["DROP TABLE IF EXISTS metadata",
                               "CREATE TABLE metadata (wrong_key TEXT, wrong_value TEXT, PRIMARY KEY (wrong_key))"])
+                elif how.startswith("typed:"):
+                    self.sql(["DROP TABLE IF EXISTS metadata", "CREATE TABLE metadata (key TEXT, value INTEGER, PRIMARY KEY (key))"])
                 elif how in ("delcreated", "delprune") and snap["meta"] not in (None, "alien"):
                     self.sql([("DELETE FROM metadata WHERE key=?", ("created_at" if how == "delcreated" else "last_prune",))])
         elif k == "cfile":
@@ -438,6 +458,8 @@ class Real:
 
 def model_op(op):
     """Case-level op -> driver-level op (blob names become blob kinds)."""
+    if op[0] == "clayout" and str(op[2]).startswith("typed:"):
+        return ["clayout", op[1], "alien"]     # an unexpected layout; exact as long as a (re)initialisation follows
     if op[0] == "centry":
         cls = BLOBS[op[3]][1]
         return ["centry", op[1], op[2], "none"] if cls is None else ["centry", op[1], op[2], "bad", cls]
@@ -445,7 +467,11 @@ def model_op(op):
 
 
 def damaging(op):
-    return op[0] == "cfile" or (op[0] == "clayout" and op[1] == "models" and op[2] in ("drop", "alien", "extracol"))
+    return op[0] == "cfile" or (op[0] == "clayout" and op[1] == "models" and (op[2] in ("drop", "alien", "extracol") or op[2].startswith("typed:")))
+
+
+def typed(op):
+    return op[0] == "clayout" and str(op[2]).startswith("typed:")
 
 
 class Tracker:
@@ -627,14 +653,16 @@ def gen_history(rng, pool, maxlen, guarded, f3=False):
                         rng.choice(list(BLOBS))])
         elif r < 0.91:
             tbl = rng.choice(["models", "meta"])
-            how = rng.choice(["drop", "alien", "nopk", "extracol"] if tbl == "models" else ["drop", "alien", "delcreated", "delprune"])
+            how = rng.choice(["drop", "alien", "nopk", "extracol"] + ["typed:" + k for k, v in TYPED_LAYOUTS.items() if v] if tbl == "models"
+                             else ["drop", "alien", "delcreated", "delprune", "typed:meta_value_int"])
             ops.append(["clayout", tbl, how])
         elif r < 0.95:
             ops.append(["cfile", rng.choice(["delete", "empty", "text", "header", "freelist"])])
         else:
             ops.append(["foreign", rng.choice(hot), rng.choice([100, 101]), rng.choice([0, 2, 40])])
         tr.feed(ops[-1])
-        if (guarded and tr.unsynced()) or (ops[-1][:2] == ["cfile", "freelist"] and tr.init) or (not f3 and tr.write_damaged()):
+        if (guarded and tr.unsynced()) or ((ops[-1][:2] == ["cfile", "freelist"] or typed(ops[-1])) and tr.init) \
+                or (not f3 and tr.write_damaged()):
             # (write damage while initialised = open finding C01-F3: only in its own stream)
             # (the model treats a file that fails integrity_check as unreadable; for `freelist` that is exact only
             # when the process does not hold the database initialised)
